@@ -43,7 +43,8 @@ LEVEL_TEXT = ("Lean 4 theorems for every world size, workload, schedule and cras
               "(in-flight writes resolved adversarially: absent, partial, complete; torn metadata = strict prefix, rejected by the "
               "reader by hypothesis = C14); returning from take / wait() implies the metadata write returned. Tied to the real code "
               "by replaying deterministic-scheduler histories in the Lean driver; the oracle materialises crash cuts and runs the "
-              "real open + restore on them.")
+              "real open + restore on them."
+              ' Joined with the job data-plane model (C02_world_crash_restore): at every crash cut, if the snapshot can be opened then every rank restores every leaf of its saved state exactly from what is in storage.')
 LEVEL_NOTE = ("Trusted: Lean kernel (+propext, Classical.choice, Quot.sound), lean/TsModel/{Barrier,Commit}.lean, harness/detsim.py. "
               "OS durability/rename semantics are assumed, not exhibited. 'restore equals the saved state' is checked by the oracle on "
               "the real code (the end-to-end data path is C01's subject), the theorem states completeness of every payload object.")
